@@ -11,6 +11,7 @@ package proxy
 
 import (
 	"context"
+	"encoding/binary"
 	stdjson "encoding/json"
 	"fmt"
 	"os"
@@ -68,6 +69,14 @@ type hpRequest struct {
 	TimeoutMs int `json:"timeout_ms,omitempty"`
 	// extra request headers
 	Headers map[string]string `json:"headers,omitempty"`
+	// optional (default: old behaviour): the client sends this request only once AfterAttempts upstream
+	// request frames carrying the token AfterToken have been written (or that request was answered /
+	// the connection closed): a request that arrives BETWEEN two attempts of another one
+	AfterToken    string `json:"after_token,omitempty"`
+	AfterAttempts int    `json:"after_attempts,omitempty"`
+	// ... and, with AfterSettle, once everything but timers came to rest after that (the peer acted on
+	// the attempt, a closed connection's streams were reset, the retry is waiting for its back-off)
+	AfterSettle bool `json:"after_settle,omitempty"`
 }
 
 type hpScenario struct {
@@ -105,8 +114,12 @@ type hpScenario struct {
 	EjectFirstHost bool   `json:"eject_first_host,omitempty"`
 	DirectBody     string `json:"direct_body,omitempty"`
 	ReplyDelayMs   int    `json:"reply_delay_ms,omitempty"` // virtual delay of a "delay-ok" upstream reply (C11)
-	Bound          int    `json:"bound"`
-	Choices        []int  `json:"choices,omitempty"`
+	// optional (default: old behaviour): the harness' own frame encoder / parser do not touch the
+	// process-wide buffer pools (mosn.io/pkg/buffer) MOSN's codecs draw from - a client and an upstream
+	// in other processes do not take or return MOSN's pooled buffers (see hpParseRaw)
+	PoolNeutral bool  `json:"pool_neutral,omitempty"`
+	Bound       int   `json:"bound"`
+	Choices     []int `json:"choices,omitempty"`
 }
 
 type hpFilter struct {
@@ -323,6 +336,9 @@ func hpBoltResponse(id uint32, status uint16, token string, withBody bool) []byt
 }
 
 func hpEncode(frame interface{}) []byte {
+	if hpPoolNeutral {
+		return hpEncodeRaw(frame)
+	}
 	proto := (&bolt.XCodec{}).NewXProtocol(context.Background())
 	b, err := proto.Encode(context.Background(), frame)
 	if err != nil {
@@ -335,6 +351,9 @@ func hpEncode(frame interface{}) []byte {
 // hpParse decodes as many complete bolt frames as b holds; returns the frames
 // and the number of bytes consumed. Undecodable bytes are reported as garbage.
 func hpParse(b []byte) (frames []hpFrame, consumed int, garbage string) {
+	if hpPoolNeutral {
+		return hpParseRaw(b)
+	}
 	proto := (&bolt.XCodec{}).NewXProtocol(context.Background())
 	buf := buffer.NewIoBufferBytes(append([]byte(nil), b...))
 	for buf.Len() > 0 {
@@ -432,6 +451,10 @@ func hasInt(l []int, x int) bool {
 // hpBody is the body of thread 0.
 func hpBody(sc *hpScenario, obs *hpObs) {
 	hpInit()
+	hpPoolNeutral = sc.PoolNeutral
+	if hpExecPrologue != nil {
+		hpExecPrologue()
+	}
 	h := &hpRun{sc: sc, obs: obs, attempt: map[string]int{}, reqByTk: map[string]*hpRequest{}}
 	obs.Attempts = map[string]int{}
 	for i := range sc.Requests {
@@ -496,6 +519,18 @@ func hpBody(sc *hpScenario, obs *hpObs) {
 	vrt.GoNamed("env:down-reader", func() {
 		var all []byte
 		for i, r := range sc.Requests {
+			if r.AfterAttempts > 0 && !sc.OneChunk {
+				tok, n := r.AfterToken, r.AfterAttempts
+				vrt.WaitUntil("client: attempts of another request written upstream", func() bool {
+					for _, o := range obs.Ups {
+						h.parseUp(o)
+					}
+					return obs.Attempts[tok] >= n || h.downAnswered(tok) || down.IsClosed()
+				})
+				if r.AfterSettle {
+					vrt.QuiesceNoTimers()
+				}
+			}
 			b := hpBoltRequest(uint32(100+i), r)
 			if sc.OneChunk {
 				all = append(all, b...)
@@ -780,6 +815,134 @@ func hpInstallFilters(sc *hpScenario, h *hpRun) {
 
 var hpFilterHook func(sc *hpScenario, h *hpRun)
 var hpRunHook func(h *hpRun)
+
+// hpExecPrologue, if set, runs at the very start of every execution (thread 0, before anything of the
+// execution exists).
+var hpExecPrologue func()
+
+// hpPoolNeutral is the running scenario's PoolNeutral.
+var hpPoolNeutral bool
+
+// hpEncodeRaw / hpParseRaw: the bolt v1 wire format written and read by hand (no codec of /repo, no
+// pooled buffer). The codec-based hpEncode / hpParse take an IoBuffer from MOSN's process-wide pool
+// for every frame they build or decode and never give it back: harmless for what MOSN does, but it
+// hides what MOSN does with a buffer it gave back too early (the harness would pick up the recycled
+// buffer before MOSN's next decode does, and refill it with the very frame it held).
+func hpEncodeRaw(frame interface{}) []byte {
+	var meta, class, hdr, content []byte
+	kv := func(h interface {
+		Range(func(k, v string) bool)
+	}) {
+		h.Range(func(k, v string) bool {
+			hdr = binary.BigEndian.AppendUint32(hdr, uint32(len(k)))
+			hdr = append(hdr, k...)
+			hdr = binary.BigEndian.AppendUint32(hdr, uint32(len(v)))
+			hdr = append(hdr, v...)
+			return true
+		})
+	}
+	switch x := frame.(type) {
+	case *bolt.Request:
+		kv(x)
+		class = []byte(x.Class)
+		if x.Content != nil {
+			content = x.Content.Bytes()
+		}
+		meta = append(meta, x.Protocol, x.CmdType)
+		meta = binary.BigEndian.AppendUint16(meta, x.CmdCode)
+		meta = append(meta, x.Version)
+		meta = binary.BigEndian.AppendUint32(meta, x.RequestId)
+		meta = append(meta, x.Codec)
+		meta = binary.BigEndian.AppendUint32(meta, uint32(x.Timeout))
+	case *bolt.Response:
+		kv(x)
+		class = []byte(x.Class)
+		if x.Content != nil {
+			content = x.Content.Bytes()
+		}
+		meta = append(meta, x.Protocol, x.CmdType)
+		meta = binary.BigEndian.AppendUint16(meta, x.CmdCode)
+		meta = append(meta, x.Version)
+		meta = binary.BigEndian.AppendUint32(meta, x.RequestId)
+		meta = append(meta, x.Codec)
+		meta = binary.BigEndian.AppendUint16(meta, x.ResponseStatus)
+	default:
+		panic(fmt.Sprintf("hpEncodeRaw: unexpected frame type %T", frame))
+	}
+	meta = binary.BigEndian.AppendUint16(meta, uint16(len(class)))
+	meta = binary.BigEndian.AppendUint16(meta, uint16(len(hdr)))
+	meta = binary.BigEndian.AppendUint32(meta, uint32(len(content)))
+	out := append(meta, class...)
+	out = append(out, hdr...)
+	return append(out, content...)
+}
+
+func hpParseRaw(b []byte) (frames []hpFrame, consumed int, garbage string) {
+	for len(b)-consumed > 0 {
+		d := b[consumed:]
+		if d[0] != bolt.ProtocolCode {
+			return frames, consumed, fmt.Sprintf("undecodable bytes at offset %d: protocol code %d", consumed, d[0])
+		}
+		if len(d) < bolt.LessLen {
+			break
+		}
+		fr := hpFrame{Headers: map[string]string{}}
+		var fixed int
+		switch d[1] {
+		case bolt.CmdTypeRequest, bolt.CmdTypeRequestOneway:
+			fixed = bolt.RequestHeaderLen
+			fr.IsRequest = true
+			fr.Oneway = d[1] == bolt.CmdTypeRequestOneway
+			fr.Heartbeat = binary.BigEndian.Uint16(d[2:4]) == bolt.CmdCodeHeartbeat
+		case bolt.CmdTypeResponse:
+			fixed = bolt.ResponseHeaderLen
+			fr.Status = binary.BigEndian.Uint16(d[10:12])
+		default:
+			return frames, consumed, fmt.Sprintf("undecodable bytes at offset %d: unknown cmd type %d", consumed, d[1])
+		}
+		if len(d) < fixed {
+			break
+		}
+		fr.ID = binary.BigEndian.Uint32(d[5:9])
+		classLen := int(binary.BigEndian.Uint16(d[fixed-8:]))
+		headerLen := int(binary.BigEndian.Uint16(d[fixed-6:]))
+		contentLen := int(binary.BigEndian.Uint32(d[fixed-4:]))
+		n := fixed + classLen + headerLen + contentLen
+		if len(d) < n {
+			break
+		}
+		hb := d[fixed+classLen : fixed+classLen+headerLen]
+		var strs []string
+		for len(hb) > 0 {
+			if len(hb) < 4 || int(binary.BigEndian.Uint32(hb)) > len(hb)-4 {
+				return frames, consumed, fmt.Sprintf("undecodable bytes at offset %d: malformed header block", consumed)
+			}
+			l := int(binary.BigEndian.Uint32(hb))
+			strs = append(strs, string(hb[4:4+l]))
+			hb = hb[4+l:]
+		}
+		if len(strs)%2 != 0 {
+			return frames, consumed, fmt.Sprintf("undecodable bytes at offset %d: header key without a value", consumed)
+		}
+		for i := 0; i < len(strs); i += 2 {
+			fr.Headers[strs[i]] = strs[i+1]
+		}
+		fr.Token = fr.Headers["token"]
+		if contentLen > 0 {
+			c := string(d[n-contentLen : n])
+			if fr.IsRequest {
+				fr.BodyToken = strings.TrimPrefix(c, "body-of-")
+			} else {
+				fr.BodyToken = strings.TrimPrefix(c, "resp-of-")
+			}
+		}
+		fr.Raw = n
+		consumed += n
+		frames = append(frames, fr)
+	}
+	return
+}
+
 var hpRouterHook func(sc *hpScenario, rc *v2.RouterConfiguration)
 
 // hpDeterminism replays the default schedule of a scenario twice (and one
@@ -886,6 +1049,12 @@ func hpScenarioName(sc *hpScenario) string {
 		}
 		if r.Body {
 			k += "+body"
+		}
+		if r.AfterAttempts > 0 {
+			k += fmt.Sprintf("@after-%d-attempts-of-%s", r.AfterAttempts, r.AfterToken)
+			if r.AfterSettle {
+				k += "-settled"
+			}
 		}
 		parts = append(parts, k+"["+strings.Join(r.Script, ",")+"]")
 	}
